@@ -5,7 +5,8 @@ INFO = {
     "rule": "One 'no check fails' instance per (unit, size class): lengths / offsets that act as sizes are enumerated, every content byte, bit and "
             "float is symbolic with no assumption beyond its type (bit-stream blocks: values 0/1, the documented precondition). Oracle = CBMC's "
             "panic, arithmetic-overflow, bounds, division and unwinding checks on the real code; an error *value* is an allowed outcome.",
-    "bounds": "AuDecode: data-offset field in {0,4,7,8,9,16,23,24,28,32}, all other header bytes symbolic, 0..4 data bytes, fed in pieces of 3/4/64; "
+    "bounds": "AuDecode: data-offset field in {0,4,7,8,9,16,23} (too-short headers: decided), {24,28,32} (well-formed length with arbitrary encoding/rate/channel "
+              "fields: enumerated, but no instance finishes in 900 s - not established), all other header bytes symbolic, 0..3 data bytes, fed in pieces of 3/4/64; "
               "HdlcDeframer: 10 arbitrary bits through work() (thorough tier only; the no-panic claim for the automaton rests on C13's step harnesses, which start from "
               "arbitrary states with up to 30 collected bits), min_size in {0,1,2}, checksum on/off, bit fixing on/off; Midpointer: empty burst only decided (bursts of 1..3 floats are enumerated but CBMC does not finish in 2400 s: float division + sort); "
               "VecToStream: packet lengths 0..cap+1; ZeroCrossing: 6 floats.",
